@@ -199,8 +199,7 @@ func (Serializer) Unmarshal(buf []byte, m pilosa.Message) error {
 		if err != nil {
 			return errors.Wrap(err, "unmarshaling QueryResponse")
 		}
-		decodeQueryResponse(msg, mt)
-		return nil
+		return errors.Wrap(decodeQueryResponse(msg, mt), "decoding QueryResponse")
 	case *pilosa.ImportRequest:
 		msg := &internal.ImportRequest{}
 		err := proto.Unmarshal(buf, msg)
@@ -768,6 +767,9 @@ func decodeResizeSource(rs *internal.ResizeSource, m *pilosa.ResizeSource) {
 }
 
 func decodeSchema(s *internal.Schema, m *pilosa.Schema) {
+	if s == nil {
+		return
+	}
 	m.Indexes = make([]*pilosa.IndexInfo, len(s.Indexes))
 	decodeIndexes(s.Indexes, m.Indexes)
 }
@@ -803,6 +805,9 @@ func decodeField(f *internal.Field, m *pilosa.FieldInfo) {
 }
 
 func decodeFieldOptions(options *internal.FieldOptions, m *pilosa.FieldOptions) {
+	if options == nil {
+		return
+	}
 	m.Type = options.Type
 	m.CacheType = options.CacheType
 	m.CacheSize = options.CacheSize
@@ -823,6 +828,9 @@ func decodeNodes(a []*internal.Node, m []*pilosa.Node) {
 }
 
 func decodeClusterStatus(cs *internal.ClusterStatus, m *pilosa.ClusterStatus) {
+	if cs == nil {
+		return
+	}
 	m.State = cs.State
 	m.ClusterID = cs.ClusterID
 	m.Nodes = make([]*pilosa.Node, len(cs.Nodes))
@@ -830,6 +838,9 @@ func decodeClusterStatus(cs *internal.ClusterStatus, m *pilosa.ClusterStatus) {
 }
 
 func decodeNode(node *internal.Node, m *pilosa.Node) {
+	if node == nil {
+		return
+	}
 	m.ID = node.ID
 	decodeURI(node.URI, &m.URI)
 	m.IsCoordinator = node.IsCoordinator
@@ -837,6 +848,9 @@ func decodeNode(node *internal.Node, m *pilosa.Node) {
 }
 
 func decodeURI(i *internal.URI, m *pilosa.URI) {
+	if i == nil {
+		return
+	}
 	m.Scheme = i.Scheme
 	m.Host = i.Host
 	m.Port = uint16(i.Port)
@@ -855,6 +869,9 @@ func decodeCreateIndexMessage(pb *internal.CreateIndexMessage, m *pilosa.CreateI
 }
 
 func decodeIndexMeta(pb *internal.IndexMeta, m *pilosa.IndexOptions) {
+	if pb == nil {
+		return
+	}
 	m.Keys = pb.Keys
 	m.TrackExistence = pb.TrackExistence
 }
@@ -922,6 +939,9 @@ func decodeNodeEventMessage(pb *internal.NodeEventMessage, m *pilosa.NodeEvent) 
 }
 
 func decodeNodeStatus(pb *internal.NodeStatus, m *pilosa.NodeStatus) {
+	if pb == nil {
+		return
+	}
 	m.Node = &pilosa.Node{}
 	decodeNode(pb.Node, m.Node)
 	m.Indexes = decodeIndexStatuses(pb.Indexes)
@@ -1014,7 +1034,7 @@ func decodeBlockDataResponse(pb *internal.BlockDataResponse, m *pilosa.BlockData
 	m.ColumnIDs = pb.ColumnIDs
 }
 
-func decodeQueryResponse(pb *internal.QueryResponse, m *pilosa.QueryResponse) {
+func decodeQueryResponse(pb *internal.QueryResponse, m *pilosa.QueryResponse) error {
 	m.ColumnAttrSets = make([]*pilosa.ColumnAttrSet, len(pb.ColumnAttrSets))
 	decodeColumnAttrSets(pb.ColumnAttrSets, m.ColumnAttrSets)
 	if pb.Err == "" {
@@ -1023,7 +1043,7 @@ func decodeQueryResponse(pb *internal.QueryResponse, m *pilosa.QueryResponse) {
 		m.Err = errors.New(pb.Err)
 	}
 	m.Results = make([]interface{}, len(pb.Results))
-	decodeQueryResults(pb.Results, m.Results)
+	return decodeQueryResults(pb.Results, m.Results)
 }
 
 func decodeColumnAttrSets(pb []*internal.ColumnAttrSet, m []*pilosa.ColumnAttrSet) {
@@ -1039,10 +1059,15 @@ func decodeColumnAttrSet(pb *internal.ColumnAttrSet, m *pilosa.ColumnAttrSet) {
 	m.Attrs = decodeAttrs(pb.Attrs)
 }
 
-func decodeQueryResults(pb []*internal.QueryResult, m []interface{}) {
+func decodeQueryResults(pb []*internal.QueryResult, m []interface{}) error {
 	for i := range pb {
-		m[i] = decodeQueryResult(pb[i])
+		result, err := decodeQueryResult(pb[i])
+		if err != nil {
+			return errors.Wrapf(err, "decoding result %d", i)
+		}
+		m[i] = result
 	}
+	return nil
 }
 
 func decodeTranslateKeysRequest(pb *internal.TranslateKeysRequest, m *pilosa.TranslateKeysRequest) {
@@ -1069,30 +1094,33 @@ const (
 	queryResultTypePair
 )
 
-func decodeQueryResult(pb *internal.QueryResult) interface{} {
+func decodeQueryResult(pb *internal.QueryResult) (interface{}, error) {
 	switch pb.Type {
 	case queryResultTypeRow:
-		return decodeRow(pb.Row)
+		return decodeRow(pb.Row), nil
 	case queryResultTypePairs:
-		return decodePairs(pb.Pairs)
+		return decodePairs(pb.Pairs), nil
 	case queryResultTypeValCount:
-		return decodeValCount(pb.ValCount)
+		return decodeValCount(pb.ValCount), nil
 	case queryResultTypeUint64:
-		return pb.N
+		return pb.N, nil
 	case queryResultTypeBool:
-		return pb.Changed
+		return pb.Changed, nil
 	case queryResultTypeNil:
-		return nil
+		return nil, nil
 	case queryResultTypeRowIDs:
-		return pilosa.RowIDs(pb.RowIDs)
+		return pilosa.RowIDs(pb.RowIDs), nil
 	case queryResultTypeRowIdentifiers:
-		return decodeRowIdentifiers(pb.RowIdentifiers)
+		return decodeRowIdentifiers(pb.RowIdentifiers), nil
 	case queryResultTypeGroupCounts:
-		return decodeGroupCounts(pb.GroupCounts)
+		return decodeGroupCounts(pb.GroupCounts), nil
 	case queryResultTypePair:
-		return decodePair(pb.Pairs[0])
+		if len(pb.Pairs) == 0 {
+			return nil, errors.New("query result of type pair holds no pair")
+		}
+		return decodePair(pb.Pairs[0]), nil
 	}
-	panic(fmt.Sprintf("unknown type: %d", pb.Type))
+	return nil, fmt.Errorf("unknown query result type: %d", pb.Type)
 }
 
 // DecodeRow converts r from its internal representation.
@@ -1142,6 +1170,9 @@ func decodeAttr(attr *internal.Attr) (key string, value interface{}) {
 }
 
 func decodeRowIdentifiers(a *internal.RowIdentifiers) *pilosa.RowIdentifiers {
+	if a == nil {
+		return &pilosa.RowIdentifiers{}
+	}
 	return &pilosa.RowIdentifiers{
 		Rows: a.Rows,
 		Keys: a.Keys,
@@ -1190,6 +1221,9 @@ func decodePair(pb *internal.Pair) pilosa.Pair {
 }
 
 func decodeValCount(pb *internal.ValCount) pilosa.ValCount {
+	if pb == nil {
+		return pilosa.ValCount{}
+	}
 	return pilosa.ValCount{
 		Val:   pb.Val,
 		Count: pb.Count,
